@@ -48,7 +48,7 @@ except OSError:
     pass
 UIDS_WITH = [0, 1, 2, 33, 1000, 65534, 4300, 4301, 4302, 4303, 4304]
 UIDS_WITHOUT = [4242, 70000, 2 ** 31, 1234567]
-GIDS_WITH = [0, 1, 2, 33, 1000, 65534, 4300, 4301, 4304]
+GIDS_WITH = [0, 1, 2, 33, 1000, 65534, 4300, 4301, 4304, 4305]
 GIDS_WITHOUT = [4243, 70001, 2 ** 31 + 1]
 VERSION = CONFIGURE = b""
 
@@ -79,7 +79,8 @@ def strategy():
         sudo_user = draw(st.one_of(st.none(), st.none(), gen.ident_bytes(1, 20)))
         dtf = draw(st.sampled_from(DT_FORMATS))
         cgs = draw(st.sampled_from(CG_SELECTORS))
-        leaf = draw(gen.ident_bytes(1, 15))
+        # kernel name of the calling process (with a pid namespace of its own it is also the "root process" of its chain)
+        leaf = draw(st.one_of(gen.ident_bytes(1, 15), st.sampled_from([b" lead", b"  two", b"\ttab", b"trail ", b"in ner", b"kworker/u8:1", b"a:b", b"(paren)", b"123456789012345"])))
         return {"u": list(u), "g": list(g), "cwd": cwd, "deep_len": deep_len, "stdin": stdin, "tty_owner": tty_owner, "envk": envk,
                 "v1": v1, "chain": chain, "orphan": orphan, "newsid": newsid, "host": host, "logname": logname, "sudo_user": sudo_user,
                 "dtf": dtf, "cgs": cgs, "leaf": leaf, "bigpid": draw(st.sampled_from([0] * 7 + [1234567, 4194000]))}
@@ -137,7 +138,8 @@ def make_sysfiles(rundir):
     group = open("/etc/group", "rb").read()
     if not group.endswith(b"\n"):
         group += b"\n"
-    group += (b"manymembers:x:4300:" + b",".join(b"member%04d" % i for i in range(400)) + b"\n" + b"g4301:x:4301:\n" + b"glast:x:4304:root")
+    group += (b"midgroup:x:4305:" + b",".join(b"dev%02d" % i for i in range(24)) + b"\n" +
+              b"manymembers:x:4300:" + b",".join(b"member%04d" % i for i in range(400)) + b"\n" + b"g4301:x:4301:\n" + b"glast:x:4304:root")
     import socket
     hn = socket.gethostname().encode()
     hosts = (b"127.0.0.1 localhost\n# " + hn + b".commented.example\n" + b"10.0.0.1 " + b" ".join(b"alias%03d.example.net" % i for i in range(90)) + b"\n" +
